@@ -53,3 +53,31 @@ Example C10_nonvacuous :
   jit_ok 1 10 (effective_ttl c 0) 123456789 /\ write_expiry c 0 1000 123456789 = 1000 + hour + 123456789
   /\ write_expiry (mkBcfg (-1) true MostExpired 0 0) 0 1000 5 = 0.
 Proof. vm_compute. repeat split; discriminate. Qed.
+
+(* ---- tie to the source: the function bodies below are re-translated from /repo on every run
+   (harness/cmd/gofunc -> theories/Generated/Funcs.v, interpreted by theories/GoIR.v); the statements say that
+   the translated source computes what the model assumes, for ALL inputs. A change of the source that alters
+   the computed function breaks the proof. ---- *)
+From Cache Require Import GoIR TieRead TieTTL.
+From Cache.Generated Require Import Funcs.
+
+(* Trait.TTL: the effective TTL and the expirationsSet increment are the model's trait_ttl, the jitter term being
+   Duration(float64(T) * ExpirationJitter * (rand.Float64() - 0.5)) of the base TTL T, for ANY float-to-integer
+   conversion [ftrunc] (its rounding is bounded separately: C10_bounds) *)
+Theorem C10_source_ttl : forall ftrunc c ctx_ttl,
+  run_trait_ttl ftrunc c ctx_ttl =
+  Some (trait_ttl c ctx_ttl (jitter_formula ftrunc (if ctx_ttl =? 0 then eff_ttl c else ctx_ttl))).
+Proof. exact tie_trait_ttl. Qed.
+Print Assumptions C10_source_ttl.
+
+(* Trait.expireAt: TTL 0 = never (0), otherwise now + ttl *)
+Theorem C10_source_expire_at : forall ttl now, run_expire_at ttl now = Some (ttl, expire_at now ttl).
+Proof. exact tie_expire_at. Qed.
+Print Assumptions C10_source_expire_at.
+
+(* the read threshold in the source (both PrepareRead variants) is the model's [expired] *)
+Theorem C10_source_threshold : forall c now has_log has_stat e,
+  run_prepare_read fn_Trait_PrepareRead false c now has_log has_stat true e = Some (model_found c now e has_stat) /\
+  run_prepare_read fn_TraitOf_PrepareRead true c now has_log has_stat true e = Some (model_found c now e has_stat).
+Proof. intros; split; [exact (tie_prepare_read_found _ _ _ _ _) | exact (tie_prepare_read_of_found _ _ _ _ _)]. Qed.
+Print Assumptions C10_source_threshold.
